@@ -336,8 +336,16 @@ func init() {
 	reg("(time.Time).Format", func(in *Interp, fr *frame, args []value) value { return in.mkStr("«time»") })
 	reg("(time.Time).String", func(in *Interp, fr *frame, args []value) value { return in.mkStr("«time»") })
 	reg("(time.Duration).String", func(in *Interp, fr *frame, args []value) value { return in.mkStr("«duration»") })
+	reg(rtPkg+"SleepYields", func(in *Interp, fr *frame, args []value) value {
+		in.sleepYields = true
+		return nil
+	})
 	reg("time.Sleep", func(in *Interp, fr *frame, args []value) value {
+		// a sleeping thread lets the others run: with verifrt.SleepYields the switch away from it
+		// is not charged to the preemption bound (it is a blocking operation, not a preemption)
+		in.freeYield = in.sleepYields
 		in.syncOp(fr, "sleep", fr.callpos, nil)
+		in.freeYield = false
 		in.ghostInc("sleeps")
 		return nil
 	})
